@@ -1,0 +1,227 @@
+//go:build verif
+
+// Contracts for the contract-based deductive verification in /verif (govc).
+// Comment-only: nothing in this file is compiled into the package.
+package regulator
+
+// a table the regulator knows: its sheet is consistent and never asks for more than the capacity
+//@ pred TABLEOK(r, t) = t != nil && t.Required >= 0 && t.PlayerCount >= 0 && t.PlayerCount + t.Required <= r.maxPlayersPerTable
+
+//@ pred WFR(r) = r != nil && r.tables != nil && 2 <= r.minInitialPlayers && r.minInitialPlayers <= r.maxPlayersPerTable
+//@    && r.playerCount >= 0 && r.tableCount >= 0 && r.tableCount == len(r.tables)
+//@    && (forall id string :: in(id, r.tables) ==> TABLEOK(r, r.tables[id]) && r.tables[id].ID == id)
+//@    && (forall a string, b string :: in(a, r.tables) && in(b, r.tables) && a != b ==> r.tables[a] != r.tables[b])
+
+// ---------------------------------------------------------------------------
+// callbacks (A9: tables follow the regulator's instructions). The requires clauses are what
+// property C19 demands of the regulator at every call; the ensures clauses are assumed.
+// ---------------------------------------------------------------------------
+
+//@ func callback.requestTableFn(players) (id, err)
+//@   requires [C19] len(players) <= self.maxPlayersPerTable
+//@   requires [C19] self.status != CompetitionStatus_Pending
+//@   requires [C19] old(self.tableCount) == 0 ==> len(players) >= self.minInitialPlayers && old(self.playerCount) >= self.minInitialPlayers
+//@   modifies nothing
+//@   ensures err == nil && !in(id, self.tables)
+
+//@ func callback.assignPlayersFn(tableID, players) (err)
+//@   requires [C19] in(tableID, self.tables) && self.tables[tableID].PlayerCount + len(players) <= self.maxPlayersPerTable
+//@   modifies nothing
+//@   ensures err == nil
+
+// ---------------------------------------------------------------------------
+// the waiting queue
+// ---------------------------------------------------------------------------
+
+//@ func (*regulator).getPlayersFromWaitingQueue(r, count) (res)
+//@   props C19 C09
+//@   requires r != nil
+//@   modifies r.waitingQueue
+//@   allocs elems(string)
+//@   ensures len(res) == ite(count <= 0, 0, min(count, old(len(r.waitingQueue))))
+//@   ensures len(r.waitingQueue) == old(len(r.waitingQueue)) - len(res)
+//@   ensures [C09] forall k :: 0 <= k && k < len(res) ==> res[k] == old(r.waitingQueue[k])
+//@   ensures [C09] forall k :: 0 <= k && k < len(r.waitingQueue) ==> r.waitingQueue[k] == old(r.waitingQueue[len(res) + k])
+//@   loop 1 invariant 0 <= i && (i <= count || i == 0) && len(players) == i && len(r.waitingQueue) == old(len(r.waitingQueue)) - i
+//@   loop 1 invariant forall k :: 0 <= k && k < i ==> players[k] == old(r.waitingQueue[k])
+//@   loop 1 invariant forall k :: 0 <= k && k < len(r.waitingQueue) ==> r.waitingQueue[k] == old(r.waitingQueue[i + k])
+
+//@ func (*regulator).requestPlayers(r, count) (res)
+//@   props C19 C09
+//@   requires r != nil
+//@   modifies r.waitingQueue
+//@   allocs elems(string)
+//@   ensures len(res) == ite(count <= 0, 0, min(count, old(len(r.waitingQueue))))
+//@   ensures len(r.waitingQueue) == old(len(r.waitingQueue)) - len(res)
+//@   ensures [C09] forall k :: 0 <= k && k < len(res) ==> res[k] == old(r.waitingQueue[k])
+//@   ensures [C09] forall k :: 0 <= k && k < len(r.waitingQueue) ==> r.waitingQueue[k] == old(r.waitingQueue[len(res) + k])
+//@   loop 1 invariant 0 <= i && (i <= count || i == 0) && len(players) == i && len(r.waitingQueue) == old(len(r.waitingQueue)) - i
+//@   loop 1 invariant forall k :: 0 <= k && k < i ==> players[k] == old(r.waitingQueue[k])
+//@   loop 1 invariant forall k :: 0 <= k && k < len(r.waitingQueue) ==> r.waitingQueue[k] == old(r.waitingQueue[i + k])
+
+// ---------------------------------------------------------------------------
+// topping tables up
+// ---------------------------------------------------------------------------
+
+//@ func (*regulator).getAvailableTable(r) (t, err)
+//@   props C19 C09
+//@   requires WFR(r)
+//@   modifies nothing
+//@   ensures err == nil
+//@   ensures t != nil ==> t.Required > 0 && in(t.ID, r.tables) && r.tables[t.ID] == t
+//@   ensures t == nil ==> (forall id string :: in(id, r.tables) ==> r.tables[id].Required <= 0)
+//@   loop 1 invariant forall id string :: seen(id) ==> r.tables[id].Required <= 0
+
+//@ func (*regulator).dispatchPlayer(r, players) (res, err)
+//@   props C19 C09
+//@   requires WFR(r)
+//@   modifies Table.Required, Table.PlayerCount
+//@   allocs elems(string)
+//@   ensures WFR(r)
+//@   ensures err == nil || err == ErrNoAvailableTable
+//@   ensures err == ErrNoAvailableTable ==> res == players && unchanged(Table.Required) && unchanged(Table.PlayerCount)
+//@             && (forall id string :: in(id, r.tables) ==> r.tables[id].Required <= 0)
+//@   ensures err == nil ==> len(res) <= len(players) && (len(players) > 0 ==> len(res) < len(players))
+//@   ensures [C09] err == nil ==> (forall k :: 0 <= k && k < len(res) ==> res[k] == players[len(players) - len(res) + k])
+
+//@ func (*regulator).updateTableRequirements(r)
+//@   props C19 C09
+//@   requires WFR(r)
+//@   modifies Table.Required
+//@   ensures WFR(r)
+//@   loop 1 invariant forall id string :: in(id, r.tables) ==> TABLEOK(r, r.tables[id])
+
+// ---------------------------------------------------------------------------
+// opening tables
+// ---------------------------------------------------------------------------
+
+//@ func (*regulator).allocateTables(r) (err)
+//@   props C19 C09
+//@   requires WFR(r) && r.status != CompetitionStatus_Pending
+//@   requires r.tableCount == 0 ==> len(r.waitingQueue) == r.playerCount
+//@   modifies r.tableCount, r.waitingQueue, map(map[string]*Table)
+//@   allocs Table, elems(string)
+//@   ensures err == nil && WFR(r)
+//@   ensures r.tableCount == 0 ==> len(r.waitingQueue) == old(len(r.waitingQueue))
+//@   ensures r.tableCount >= old(r.tableCount) && len(r.waitingQueue) <= old(len(r.waitingQueue))
+//@   ensures old(JINV(r)) ==> JINV(r)
+//@   loop 1 invariant WFR(r) && r.tableCount >= old(r.tableCount) && r.status != CompetitionStatus_Pending && len(r.waitingQueue) <= old(len(r.waitingQueue))
+//@   loop 1 invariant old(JINV(r)) ==> JINV(r)
+//@   -- what is known about the water level in the first iteration (it is recomputed without a clamp afterwards)
+//@   loop 1 invariant r.tableCount == old(r.tableCount) && r.tableCount < requiredTables ==> waterLevel <= r.maxPlayersPerTable
+//@   loop 1 invariant r.tableCount == old(r.tableCount) ==> len(r.waitingQueue) == old(len(r.waitingQueue))
+//@   loop 1 invariant r.tableCount == 0 ==> old(r.tableCount) == 0 && r.playerCount >= r.minInitialPlayers
+//@   loop 1 invariant old(r.tableCount) == 0 && r.tableCount < requiredTables && waterLevel >= r.minInitialPlayers ==> waterLevel <= len(r.waitingQueue)
+
+//@ func (*regulator).breakTable(r, tableID) (err)
+//@   props C09 C20
+//@   requires WFR(r)
+//@   modifies r.tableCount, map(map[string]*Table)
+//@   ensures WFR(r)
+//@   ensures !old(in(tableID, r.tables)) ==> err == ErrNotFoundTable && r.tableCount == old(r.tableCount)
+//@             && (forall id string :: (in(id, r.tables) <==> old(in(id, r.tables))) && r.tables[id] == old(r.tables[id]))
+//@   ensures old(in(tableID, r.tables)) ==> err == nil && !in(tableID, r.tables) && r.tableCount == old(r.tableCount) - 1
+//@             && (forall id string :: id != tableID ==> (in(id, r.tables) <==> old(in(id, r.tables))) && r.tables[id] == old(r.tables[id]))
+
+//@ func (*regulator).drainWaitingQueue(r) (err)
+//@   props C19 C09
+//@   requires WFR(r) && r.status != CompetitionStatus_Pending
+//@   requires r.tableCount == 0 ==> len(r.waitingQueue) == r.playerCount
+//@   modifies r.tableCount, r.waitingQueue, map(map[string]*Table), Table.Required, Table.PlayerCount
+//@   allocs Table, elems(string)
+//@   ensures err == nil && WFR(r)
+//@   ensures r.tableCount == 0 ==> len(r.waitingQueue) == old(len(r.waitingQueue))
+//@   ensures r.tableCount >= old(r.tableCount) && len(r.waitingQueue) <= old(len(r.waitingQueue))
+//@   ensures JINV(r)
+//@   loop 1 invariant WFR(r) && (err == nil || err == ErrNoAvailableTable) && len(candidates) <= old(len(r.waitingQueue))
+//@   loop 2 invariant WFR(r) && (err == nil || err == ErrNoAvailableTable) && len(candidates) <= old(len(r.waitingQueue))
+
+//@ func (*regulator).enterWaitingQueue(r, players) (err)
+//@   props C19 C09
+//@   requires WFR(r)
+//@   requires r.tableCount == 0 ==> len(r.waitingQueue) + len(players) == r.playerCount
+//@   modifies r.tableCount, r.waitingQueue, map(map[string]*Table), Table.Required, Table.PlayerCount
+//@   allocs Table, elems(string)
+//@   ensures err == nil && WFR(r)
+//@   ensures r.tableCount == 0 ==> len(r.waitingQueue) == old(len(r.waitingQueue)) + len(players)
+//@   ensures r.tableCount >= old(r.tableCount) && len(r.waitingQueue) <= old(len(r.waitingQueue)) + len(players)
+//@   ensures r.status != CompetitionStatus_Pending ==> JINV(r)
+//@   ensures r.status == CompetitionStatus_Pending ==> r.tableCount == old(r.tableCount)
+//@   ensures [C09] r.status == CompetitionStatus_Pending ==> len(r.waitingQueue) == old(len(r.waitingQueue)) + len(players)
+//@             && (forall k :: 0 <= k && k < old(len(r.waitingQueue)) ==> r.waitingQueue[k] == old(r.waitingQueue[k]))
+//@             && (forall k :: 0 <= k && k < len(players) ==> r.waitingQueue[old(len(r.waitingQueue)) + k] == players[k])
+
+// ---------------------------------------------------------------------------
+// public operations
+// ---------------------------------------------------------------------------
+
+// RINV: what holds between two regulator operations (with tables that follow the instructions)
+// nobody waits while a table still asks for players (the queue is drained into open requirements first)
+//@ pred JINV(r) = len(r.waitingQueue) > 0 ==> (forall id string :: in(id, r.tables) ==> r.tables[id].Required == 0)
+
+//@ pred RINV(r) = WFR(r) && (r.tableCount == 0 ==> len(r.waitingQueue) == r.playerCount) && len(r.waitingQueue) <= r.playerCount
+//@    && (r.status == CompetitionStatus_Pending ==> r.tableCount == 0) && (r.status != CompetitionStatus_Pending ==> JINV(r))
+
+//@ func (*regulator).AddPlayers(r, players) (err)
+//@   props C19 C09
+//@   requires RINV(r)
+//@   modifies r.playerCount, r.tableCount, r.waitingQueue, map(map[string]*Table), Table.Required, Table.PlayerCount
+//@   allocs Table, elems(string)
+//@   ensures RINV(r)
+//@   ensures [C09] old(r.status) == CompetitionStatus_AfterRegDeadline ==> err == ErrAfterRegDealline && r.playerCount == old(r.playerCount)
+//@             && r.tableCount == old(r.tableCount) && r.waitingQueue == old(r.waitingQueue) && unchanged(Table.Required) && unchanged(Table.PlayerCount)
+//@             && (forall id string :: (in(id, r.tables) <==> old(in(id, r.tables))) && r.tables[id] == old(r.tables[id]))
+//@   ensures [C09] old(r.status) != CompetitionStatus_AfterRegDeadline ==> err == nil && r.playerCount == old(r.playerCount) + len(players)
+
+//@ func (*regulator).SetStatus(r, status)
+//@   props C19 C09
+//@   requires RINV(r)
+//@   -- environment: a competition that has opened tables is not put back into the pending phase
+//@   requires status == CompetitionStatus_Pending ==> r.tableCount == 0
+//@   modifies r.status, r.tableCount, r.waitingQueue, map(map[string]*Table), Table.Required, Table.PlayerCount
+//@   allocs Table, elems(string)
+//@   ensures RINV(r) && r.status == status && r.playerCount == old(r.playerCount)
+
+//@ func (*regulator).ReleasePlayers(r, tableID, players) (err)
+//@   props C19 C09 C20
+//@   requires RINV(r)
+//@   -- environment (A9): the players handed back were released by the regulator and are still counted
+//@   requires r.tableCount == 0 ==> len(r.waitingQueue) + len(players) == r.playerCount
+//@   requires len(r.waitingQueue) + len(players) <= r.playerCount
+//@   modifies r.tableCount, r.waitingQueue, map(map[string]*Table), Table.Required, Table.PlayerCount
+//@   allocs Table, elems(string)
+//@   ensures err == nil && RINV(r) && r.playerCount == old(r.playerCount)
+
+//@ func (*regulator).calculateLowerWaterLevel(r) (res)
+//@   inline
+//@   loop 1 invariant tableCount >= 0
+
+//@ func (*regulator).getLowWaterLevelTableCount(r) (res)
+//@   inline
+//@   loop 1 invariant tableCount >= 0
+
+//@ func (*regulator).SyncState(r, tableID, out) (release, newPlayers, err)
+//@   props C19 C09 C20
+//@   requires RINV(r)
+//@   -- environment (A9): the table reports eliminations among the players it really has; they and the waiting players are counted
+//@   requires in(tableID, r.tables) ==> 0 <= out && out <= r.tables[tableID].PlayerCount
+//@             && len(r.waitingQueue) + r.tables[tableID].PlayerCount <= r.playerCount
+//@   modifies r.playerCount, r.tableCount, r.waitingQueue, map(map[string]*Table), Table.PlayerCount, Table.Required
+//@   allocs elems(string)
+//@   ensures [C09] !old(in(tableID, r.tables)) ==> err == ErrNotFoundTable && release == 0 && len(newPlayers) == 0
+//@             && r.playerCount == old(r.playerCount) && r.tableCount == old(r.tableCount) && r.waitingQueue == old(r.waitingQueue)
+//@             && unchanged(Table.Required) && unchanged(Table.PlayerCount)
+//@             && (forall id string :: (in(id, r.tables) <==> old(in(id, r.tables))) && r.tables[id] == old(r.tables[id]))
+//@   ensures old(in(tableID, r.tables)) ==> err == nil && RINV(r) && r.playerCount == old(r.playerCount) - out && release >= 0
+//@   -- C19: the table is never asked to hold more than the capacity after the top-up
+//@   ensures [C19] in(tableID, r.tables) ==> r.tables[tableID].PlayerCount <= r.maxPlayersPerTable
+//@   ensures [C09] old(in(tableID, r.tables)) && in(tableID, r.tables)
+//@             ==> r.tables[tableID].PlayerCount == old(r.tables[tableID].PlayerCount) - out - release + len(newPlayers)
+//@   -- C20: a table that is told to break hands back all of its players
+//@   ensures [C20 C09] old(in(tableID, r.tables)) && !in(tableID, r.tables)
+//@             ==> release == old(r.tables[tableID].PlayerCount) - out && len(newPlayers) == 0 && r.tableCount == old(r.tableCount) - 1
+//@   ensures [C09] forall k :: 0 <= k && k < len(newPlayers) ==> newPlayers[k] == old(r.waitingQueue[k])
+//@   ensures [C09] len(r.waitingQueue) == old(len(r.waitingQueue)) - len(newPlayers)
+//@   loop 1 invariant 0 <= i && i <= count && picked == i
+//@   loop 1 invariant t.PlayerCount == old(r.tables[tableID].PlayerCount) - out - picked
+//@   loop 1 invariant forall s *Table :: s != t ==> s.PlayerCount == old(s.PlayerCount)
